@@ -280,7 +280,11 @@ func e2eEval(r *core.Run, c *e2eCase) {
 		ok := false
 		// Generous wait (up to ~2 min while pp is blocked on its input and nothing else can make it emit).
 		// Its expiry alone decides nothing: the verdict comes from what happens after more input is given.
-		for w := 0; w < 12000 && late < 0; w++ {
+		limit := 12000
+		if r.Violations() > 0 {
+			limit = 300 // the verdict is already "violated": no need for the long causal wait in the other sessions
+		}
+		for w := 0; w < limit && late < 0; w++ {
 			if satisfied(i) {
 				ok = true
 				if w > 800 {
